@@ -20,13 +20,29 @@ Guards against demanding more than the statement says (floating point only):
    * row order inside a DataFrame is not asserted; for dim=1 only "one frame per sequence that has
      hits, each frame one sequence, union = the dim=0 hit set" is asserted;
    * PWMs are float64 tensors (what read_meme produces).
+The float guards are switched OFF where no rounding can occur (family (e) below): when every log-odds term of a
+window is a small dyadic rational (integer, here) and the bin size is a power of two, the score, the score threshold
+and the score bin are exact in float64 whatever the summation order, so a window scoring EXACTLY the threshold must
+not be reported ("exceeds") and its p-value must be the entry of its one bin.
 Relational clauses (real run versus real run): reverse complement of the sequences gives the
 mirror image with strands exchanged; FASTA == tensor input; dim=1 == dim=0; return_counts ==
 row counts; numba thread counts 1..16 (numba.set_num_threads, capped at NUMBA_NUM_THREADS of the
 machine) give identical results; MEME file == dict of the same PWMs (each matrix followed by a
 URL line and a blank line, so that the separate read_meme property C16 is not involved).
 
+Input variants of the SAME mathematical input (case keys xvar / pvar / names / snames / desc / lower, all replayed):
+one-hot sequences as torch float32/float64/float16/int8/uint8/int64, numpy float32/int8 (Fortran order)/bool, a
+non-contiguous (N, L, 4)-stored tensor; PWM tensors column-major, strided slices of a wider matrix, requires_grad;
+motif names that end in '-rc', contain ':' or '.', have different lengths; FASTA record names that are unsorted /
+numeric / followed by a description, FASTA text soft-masked (lower case = the same base, upper() in the anchored
+code; the statement's "FASTA versus tensor input describe the same hit set" is read with FASTA's usual case
+convention), IUPAC ambiguity codes besides N (all "unknown characters", score contribution 0, also after reverse
+complementing), N-rich and all-N sequences (score 0 everywhere: hits iff the score threshold is negative).
+Call histories (kind 'history'): 3-5 consecutive calls, each differing from the previous one in one respect, each
+judged in full; optionally the same dict / tensor objects are passed again after an in-place update.
+
 Finding keys
+   score-equal-to-threshold-reported   (exact family) a window whose score equals the score threshold is reported
    last-window-not-scanned        a window at start = L - w that must be reported is not
    float32-score-threshold        a window whose score lies within float32 rounding of the score
                                   threshold is reported with p >= threshold, or is dropped
@@ -58,17 +74,29 @@ BINS = [0.05, 0.1, 0.1, 0.1, 0.25, 0.5, 1.0]
 EPSS = [1e-6, 1e-5, 1e-4, 1e-4, 1e-3, 1e-2, 0.1]
 
 SCOPE = {
-    'quick': '1-8 float64 PWMs of width 2-20 (random Dirichlet / zero entries / one-hot / uniform columns), eps 1e-6..0.1, '
-             'bin 0.05-1, threshold 1e-1..1e-6, both strands or forward only; sequences with N: (a) random, 1-4 sequences '
-             'of length 1..120, as tensor (equal lengths) or FASTA (different lengths, some shorter than the motif, '
-             'L = w included); (b) consensus of a motif (and of its reverse complement) planted at EVERY offset 0..L-w of a '
-             'random background, one sequence per offset; (c) directed: PWM tuned so that one window scores between the '
-             'exact score threshold and its float32 rounding; every window of every sequence judged against the '
-             'reference scanner, all eight columns of every reported row checked; (d) relations on ~1/2 of the cases of (a), (b) '
-             '(1-3 of: reverse-complemented sequences, FASTA vs tensor, dim=1, return_counts, MEME file, two thread counts '
-             'out of {1,2,3,5,8,16}); 55 planted + ~40 directed + 170 random cases (fewer if the time shares 22/10/45 % of the budget run out)',
-    'thorough': 'same families, as many cases as fit in 10 min (up to 2500 planted / 1500 directed / 6000 random), sequences up to '
-                'length 400, planted motifs up to width 20, thread relation runs every thread count 1..16',
+    'quick': '1-8 float64 PWMs of width 2-20 (random Dirichlet / zero entries / one-hot / uniform columns; palindromic motifs, the same '
+             'matrix under two names, a motif together with its reverse complement), eps 1e-6..0.1, bin 0.05-1, threshold 1e-1..1e-6, both '
+             'strands or forward only; sequences with unknown characters (N, other IUPAC codes; a few, many, or nothing else): '
+             '(a) random, 1-4 sequences of length 1..120, as array (equal lengths) or FASTA (different lengths, some shorter than the motif, '
+             'L = w included, wrapped lines); (b) consensus of a motif (and of its reverse complement) planted at EVERY offset 0..L-w of a '
+             'random background, one sequence per offset; (c) directed: PWM tuned so that one window scores between the exact score '
+             'threshold and its float32 rounding; (e) directed exact family: PWMs with integer log-odds (eps 2^-4..2^-13) and bin 1 / 0.5 / '
+             '0.25, windows scoring exactly the score threshold, one bin above and below it planted at start 0, L-w and inside, either '
+             'strand - judged WITHOUT float guard; (f) call histories: 3-5 consecutive calls differing in one of PWM values (same names and '
+             'widths) / eps / bin / threshold / strands / sequences / input kind / motif order / motif count / nothing, every call judged in '
+             'full, same dict and tensor objects re-passed after in-place update in half of them; (g) scale: 258-300 sequences (array and '
+             'FASTA records), one FASTA record of 66-70 kb with hits beyond position 65535; '
+             'every window of every sequence judged against the reference scanner, all eight columns of every reported row checked; '
+             '(d) relations on ~1/2 of the cases of (a), (b) (1-3 of: reverse-complemented sequences, FASTA vs array, dim=1, return_counts, '
+             'return_counts with dim=1, MEME file, two thread counts out of {1,2,3,5,8,16}; end / motif_name / strand / bounds of every row '
+             'of the second run checked too), mirror relation on 1/3 of (e); input variants on ~1/3-1/2 of all cases: array container / dtype '
+             '/ memory layout (9 variants), PWM tensor layout (3), adversarial motif names (-rc suffix) and FASTA record names, header '
+             'descriptions, soft-masked FASTA; calls without explicit thread count use 2 numba threads, 30 % of the multi-motif cases '
+             '1/2/4/7/16; 180 exact + 80 histories (~300 calls) + 120 planted + ~40 float32-directed + 6 scale + 330 random cases (fewer if '
+             'the time shares 12/12/18/7/8/40 % of the budget after numba warm-up run out)',
+    'thorough': 'same families, as many cases as fit in 10 min (up to 1500 exact / 800 histories / 2500 planted / 1500 float32-directed / 12 '
+                'scale incl. two 40-45 kb array sequences (offsets beyond 65535) / 8000 random), sequences up to length 400, planted motifs '
+                'up to width 20, exact family up to width 12, thread relation runs every thread count 1..16',
 }
 
 
